@@ -411,14 +411,33 @@ def r4_order(rep, src, lines, f):
         rep.ok('C04.R4', f.site, 'every parsed attribute is written back', '%d slots' % len(need))
     cf = src.func(M + ':Changelog._format')
     rep.saw_func(cf)
-    t = norm(cf.node)
-    loops = [s for s in cf.node.body if isinstance(s, ast.For)]
-    ok2 = len(loops) == 2 and norm(loops[0].iter) == 'self.initial_blank_lines' and norm(loops[1].iter) == 'self._blocks' \
-        and "pieces.append(line + '\\n')" in t and 'pieces.append(block._format(' in t and "''.join(pieces)" in t
+    S = ('str',)
+    shape = ('rec', {'initial_blank_lines': ('list', S), '_blocks': ('list', ('rec', {'_format()': S}))})
+
+    def call_hook(it, c, env):
+        # block._format(...) on an item of self._blocks: the block's own text
+        if isinstance(c.func, ast.Attribute) and c.func.attr == '_format':
+            recv = it.ev(c.func.value, env)
+            if isinstance(recv, Obj) and recv.path.endswith('_blocks[]'):
+                return strlang.Slot(recv.path + '._format()')
+        return NotImplemented
+
+    def run(dec):
+        it = strlang.Interp(dec, cls='Changelog', call_hook=call_hook)
+        env = {'self': Obj('self', shape)}
+        for p_ in cf.params()[1:]:
+            env[p_] = BoolUnknown(p_)
+        r = it.run(cf.node.body, env)
+        if r is None or r[0] != 'return':
+            raise AnalysisError('%s: no return' % cf.site)
+        return r[1], it
+    res, raised = strlang.worlds(run)
+    shown2 = sorted({strlang.show(t) for _d, t, _i in res})
+    ok2 = not raised and shown2 == ["({self.initial_blank_lines[]} '\\n')* ({self._blocks[]._format()})*"]
     if ok2:
-        rep.ok('C04.R4', cf.site, 'document = initial lines, then blocks in list order', 'ok')
+        rep.ok('C04.R4', cf.site, 'document = initial lines, then blocks in list order', shown2[0])
     else:
-        rep.fail('C04.R4', cf.site, 'document = initial lines, then blocks in list order', 'Changelog._format does not emit the initial lines followed by the blocks in order', where=cf.where)
+        rep.fail('C04.R4', cf.site, 'document = initial lines, then blocks in list order', 'Changelog._format does not emit the initial lines followed by the blocks in order: %s' % ' | '.join(shown2)[:160], where=cf.where)
     for meth, attr in (('add_trailing_line', '_trailing'), ('changes', '_changes')):
         g = src.func(M + ':ChangeBlock.' + meth)
         tt = norm(g.node)
